@@ -1,10 +1,10 @@
-\* C19 thorough: AST mutations
+\* C19 thorough: every single AST mutation of every tree
 SPECIFICATION LSpec
 CONSTANTS
-  Foci = {"prec", "lit", "postfix", "lambda"}
+  Foci = {"prec", "lit", "postfix"}
   Sizes <- SmallSizes
-  LFoci = {"xasg", "stmt", "fstmt", "decl", "pairs", "samples"}
-  Bases = {"canon", "nl"}
+  LFoci = {"xasg", "stmt", "decl", "pairs", "samples"}
+  Bases = {"canon"}
   MaxGap = 0
   MaxCm = 0
   CmKinds = {}
